@@ -1,4 +1,5 @@
 import PersimVerif.Lemmas.PlotDraw
+import PersimVerif.Lemmas.PlotTotal
 import PersimVerif.Lemmas.PlotTrig
 
 /-!
@@ -389,6 +390,135 @@ example : (∃ fig, bottleneckMatching (α := ℝ) id (Real.cos (Real.pi / 4)) (
     plotDiagrams, asList, select, labelList, matchOpts, asDgm, castDgm, finiteVals, rangeOf, autoRange,
     List.min?_cons', List.max?_cons', argmax?, argmaxAux, segments, segment, pyGet, placeholder,
     Except.isOk, Except.toBool]
+
+/-! ## the model rejects only what the code rejects -/
+
+/-- **the model rejects only what the code rejects** (diagram plot): with `plot_only` indices that Python
+    accepts for the diagrams and for the label list, at least one plotted diagram, and a range to draw in
+    (an explicit `xy_range`, or some plotted diagram with a point) the call succeeds. -/
+theorem plotDiagrams_succeeds {cast : K → K} {arg : DgmsArg K} {o : Opts K}
+    (hidx : ∀ l, o.plotOnly = some l → ∀ i ∈ l, InRange (asList arg).length i ∧
+      InRange (labelList (asList arg).length o.labels).length i)
+    (hne : asList arg ≠ [])
+    (hrange : o.xyRange ≠ none ∨ ∀ d ∈ asList arg, d ≠ []) :
+    ∃ fig, plotDiagrams cast arg o = .ok fig := by
+  -- the selection succeeds
+  have hsel : ∃ sel labels, Selected arg o sel labels ∧ sel ≠ [] ∧ ∀ d ∈ sel, d ∈ asList arg := by
+    unfold Selected select
+    match hpo : o.plotOnly with
+    | none => exact ⟨_, _, rfl, hne, fun d hd => hd⟩
+    | some [] => exact ⟨_, _, rfl, hne, fun d hd => hd⟩
+    | some (i :: is) =>
+      obtain ⟨ds, hds⟩ := getAll_of_inRange (xs := asList arg) (l := i :: is)
+        (fun j hj => (hidx _ hpo j hj).1)
+      obtain ⟨ls, hls⟩ := getAll_of_inRange (xs := labelList (asList arg).length o.labels) (l := i :: is)
+        (fun j hj => (hidx _ hpo j hj).2)
+      refine ⟨ds, ls, by simp only [hds, hls], ?_, ?_⟩
+      · intro he
+        have := getAll_length hds
+        rw [he] at this; simp at this
+      · intro d hd
+        obtain ⟨j, _, hj⟩ := forall₂_mem_right (getAll_some hds) d hd
+        obtain ⟨k, hk, hx, _⟩ := pyGet_some hj
+        exact hx ▸ List.getElem_mem hk
+  obtain ⟨sel, labels, hs, hsne, hsub⟩ := hsel
+  -- a range exists
+  have hr : ∃ r, rangeOf o.xyRange (finiteVals (sel.map (castDgm cast))) = some r := by
+    match hxy : o.xyRange with
+    | some (a, b, c, d) => exact ⟨_, rfl⟩
+    | none =>
+      have hall : ∀ d ∈ asList arg, d ≠ [] := by
+        rcases hrange with h | h
+        · exact absurd hxy h
+        · exact h
+      simp only [rangeOf]
+      rw [← Option.isSome_iff_exists, autoRange_isSome]
+      cases sel with
+      | nil => exact absurd rfl hsne
+      | cons d t =>
+        have hd : d ≠ [] := hall d (hsub d (by simp))
+        cases d with
+        | nil => exact absurd rfl hd
+        | cons p t' =>
+          have : (cast p.1) ∈ finiteVals (((p :: t') :: t).map (castDgm cast)) :=
+            birth_mem_finiteVals (d := castDgm cast (p :: t')) (p := (cast p.1, p.2.map cast))
+              (by simp) (by simp [castDgm])
+          cases hfv : finiteVals (((p :: t') :: t).map (castDgm cast)) with
+          | nil => rw [hfv] at this; cases this
+          | cons _ _ => rfl
+  obtain ⟨r, hr⟩ := hr
+  exact ⟨_, plotDiagrams_of hs hsne hr⟩
+
+/-- **the bottleneck matching plot succeeds on every valid request**: a non-empty matching whose indices
+    Python accepts for the (placeholder-substituted) diagrams, not both diagrams empty.  (`-1` is always
+    accepted.)  Both-empty diagrams are rejected by the code (`np.min` of nothing in `plot_diagrams`). -/
+theorem bottleneckMatching_succeeds {cast : K → K} {c s : K} {d1 d2 : FDgm K} {rows : List (Row K)}
+    {labels : List String} (hrows : rows ≠ []) (hd : d1 ≠ [] ∨ d2 ≠ [])
+    (hidx : ∀ r ∈ rows, InRange (placeholder d1).length r.1 ∧ InRange (placeholder d2).length r.2.1) :
+    ∃ fig, bottleneckMatching cast c s d1 d2 rows labels = .ok fig := by
+  have hpd : ∃ pd, plotDiagrams cast (.many [asDgm d1, asDgm d2]) (matchOpts labels) = .ok pd := by
+    obtain ⟨sel, lbs, hs⟩ : ∃ sel lbs, Selected (K := K) (.many [asDgm d1, asDgm d2]) (matchOpts labels) sel lbs ∧
+        sel = [asDgm d1, asDgm d2] := ⟨_, _, ⟨rfl, rfl⟩⟩
+    obtain ⟨hs, rfl⟩ := hs
+    have hr : ∃ r, rangeOf (matchOpts (α := K) labels).xyRange
+        (finiteVals ([asDgm d1, asDgm d2].map (castDgm cast))) = some r := by
+      simp only [matchOpts, rangeOf]
+      rw [← Option.isSome_iff_exists, autoRange_isSome]
+      rcases hd with h | h
+      · cases d1 with
+        | nil => exact absurd rfl h
+        | cons p t => simp [finiteVals, asDgm, castDgm]
+      · cases d2 with
+        | nil => exact absurd rfl h
+        | cons p t => cases d1 <;> simp [finiteVals, asDgm, castDgm]
+    obtain ⟨r, hr⟩ := hr
+    exact ⟨_, plotDiagrams_of hs (by simp) hr⟩
+  obtain ⟨pd, hpd⟩ := hpd
+  obtain ⟨m, hm⟩ : ∃ m, argmax? (rows.map fun r => r.2.2) = some m := by
+    rw [← Option.isSome_iff_exists, argmax?_isSome]
+    cases rows with
+    | nil => exact absurd rfl hrows
+    | cons _ _ => rfl
+  obtain ⟨segs, hsegs⟩ := segments_succeeds (c := c) (s := s) (bnStyle m) (fun _ => Axes.given) rows 0 hidx
+  exact ⟨_, by simp only [bottleneckMatching, bottleneckMatchingWith, hpd, hm, hsegs]; rfl⟩
+
+/-- **the Wasserstein matching plot succeeds** on every matching (even an empty one, even two empty
+    diagrams) whose indices Python accepts for the placeholder-substituted diagrams. -/
+theorem wassersteinMatching_succeeds {cast : K → K} {c s : K} {d1 d2 : FDgm K} {rows : List (Row K)}
+    {labels : List String}
+    (hidx : ∀ r ∈ rows, InRange (placeholder d1).length r.1 ∧ InRange (placeholder d2).length r.2.1) :
+    ∃ fig, wassersteinMatching cast c s d1 d2 rows labels = .ok fig := by
+  obtain ⟨segs, hsegs⟩ := segments_succeeds (c := c) (s := s) (fun _ => Style.wass) (fun _ => Axes.given) rows 0 hidx
+  have hpd : ∃ pd, plotDiagrams cast (.many [asDgm (placeholder d1), asDgm (placeholder d2)]) (matchOpts labels) = .ok pd := by
+    have hs : Selected (K := K) (.many [asDgm (placeholder d1), asDgm (placeholder d2)]) (matchOpts labels)
+        [asDgm (placeholder d1), asDgm (placeholder d2)] labels := rfl
+    have hr : ∃ r, rangeOf (matchOpts (α := K) labels).xyRange
+        (finiteVals ([asDgm (placeholder d1), asDgm (placeholder d2)].map (castDgm cast))) = some r := by
+      simp only [matchOpts, rangeOf]
+      rw [← Option.isSome_iff_exists, autoRange_isSome]
+      cases d1 <;> simp [finiteVals, asDgm, castDgm, placeholder]
+    obtain ⟨r, hr⟩ := hr
+    exact ⟨_, plotDiagrams_of hs (by simp) hr⟩
+  obtain ⟨pd, hpd⟩ := hpd
+  exact ⟨_, by simp only [wassersteinMatching, wassersteinMatchingWith, hsegs, hpd]; rfl⟩
+
+
+/-- non-vacuity of the three `_succeeds` theorems (at `ℝ`, with the real constants) -/
+example : (∃ fig, plotDiagrams (α := ℝ) id (.many [[(0, some 1), (1, none)], [(1 / 2, some 3)]])
+      { plotOnly := some [-1, 0], labels := .one "abc" } = .ok fig) ∧
+    (∃ fig, bottleneckMatching (α := ℝ) id (Real.cos (Real.pi / 4)) (Real.sin (Real.pi / 4))
+      [] [(1, 3)] [(0, -1, 0), (-1, 0, 1), (-1, -1, 0)] ["a", "b"] = .ok fig) ∧
+    (∃ fig, wassersteinMatching (α := ℝ) id (Real.cos (Real.pi / 4)) (Real.sin (Real.pi / 4))
+      [] [] [(0, 0, 0)] ["a", "b"] = .ok fig) := by
+  refine ⟨plotDiagrams_succeeds ?_ (by simp [asList]) (Or.inr (by simp [asList])),
+    bottleneckMatching_succeeds (by simp) (Or.inr (by simp)) ?_, wassersteinMatching_succeeds ?_⟩
+  · intro l hl i hi
+    simp only [Option.some.injEq] at hl
+    subst hl
+    simp only [List.mem_cons, List.not_mem_nil, or_false] at hi
+    rcases hi with rfl | rfl <;> simp [InRange, asList, labelList]
+  · simp [InRange, placeholder]
+  · simp [InRange, placeholder]
 
 /-! ## the code before the fixes (regression witnesses) -/
 
